@@ -20,7 +20,7 @@ def add(pid, engine, cat, text, note, tech, thorough=True):
 
 add("C01", "E2-worlds", "exploration",
     "Every (model, tuple set, subject, context, object, relation) case inside the stated small-scope bound is executed through Server.Check and compared with an independent least-fixpoint reference; exhaustive inside the bound, silent outside it.",
-    "Bound: model family F (one model per r0-signature class in quick, 4 in thorough), <=2 tuples (+1 leftover tuple invalid for the model), 2 users/2 groups/2 docs, one int condition. Trusted: the harness' reference semantics (h/ref), the memory datastore's write path. Planner choices are the server's own here; C02 forces them.",
+    "Bound: model family F (one model per r0-signature class in quick, 4 in thorough), <=2 tuples (+1 leftover tuple invalid for the model), 2 users/2 groups/2 docs, one int condition; plus: three-tuple chains on a reduced universe (twin-branch, mixed-parent TTU and maskable-row classes in quick, all in thorough), the flat family of nested set operators over one object with <=4 tuples (6 in thorough), shadow worlds (a contextual tuple with the key of a stored tuple, judged against both readings), and worlds whose two rows of one object are re-run in the opposite insertion order. Trusted: the harness' reference semantics (h/ref), the memory datastore's write path. Planner choices are the server's own here; C02 forces them.",
     "bounded exhaustive enumeration of inputs executed on the implementation, oracle = independent reference model")
 
 add("C22", "E1-scheduler", "exploration",
@@ -44,16 +44,16 @@ add("C21", "E1-scheduler", "exploration",
 
 add("C02", "E2-worlds", "exploration",
     "For every world and request the real resolver chain runs under a scripted planner with EVERY assignment of an offered strategy to every consulted plan key (closure over keys that appear only under some assignment), crossed with three tuning corners and repeated; ListObjects runs through five engine/tuning configurations; all outcomes of one request must coincide and equal the reference. Strategy choice is thereby enumerated instead of sampled.",
-    "Bound: model family representatives (every 12th r0-signature class in quick, all in thorough), <=2 tuples, C01 universe; tuning corners {default, breadth 1 + reads 1, breadth 2 + dispatch throttling threshold 1}. Whole-engine runs use one Go-scheduler interleaving each (5/5 rule for the concurrency clause); interleavings are enumerated only in the E1 harnesses. Trusted: reference semantics, scripted planner.Manager (h/checks/planner.go).",
-    "bounded exhaustive enumeration of inputs x environment answers (planner strategy assignments) on the implementation against a reference model")
+    "Bound: model family representatives (quick: every 24th r0-signature class, every 2nd twin-branch and every 9th mixed-parent TTU class, the two non-default tuning corners with the default assignment only; thorough: all), <=2 tuples, C01 universe, flat family with <=4 tuples; tuning corners {default, breadth 1 + reads 1, breadth 2 + dispatch throttling threshold 1}. Two parts are decided below the engine: (a) sub-harness `red` (E1 scheduler, instrumented internal/graph + internal/concurrency + sourcegraph/conc): every interleaving up to the completed preemption bound of union/intersection/exclusion with scripted operands {true, false, false+cycle, error, panic, blocks-until-cancelled} and a cancelling thread, against the strong-Kleene table; (b) the weight-2 fast paths' stream algebra (fastPathUnion/Intersection/Difference) over every combination of size/membership/chunking patterns around the 100-id batch threshold, nested operations and a failing source message at every position, against set algebra. Whole-engine runs use one Go-scheduler interleaving each (5/5 rule for the concurrency clause). Trusted: reference semantics, scripted planner.Manager (h/checks/planner.go), vrt/vgen.",
+    "bounded exhaustive enumeration of inputs x environment answers (planner strategy assignments) on the implementation against a reference model; stateless model checking (controlled scheduler, iterative preemption bounding) of the set-operation reducers; exhaustive pattern enumeration of the stream set operations")
 
 add("C03", "E2-worlds", "exploration",
     "For every world and request the raw weighted-graph CheckQueryV2 runs under every planner strategy assignment and breadth limit {1,10}, next to the default engine and the flag-on Server.Check; object subjects are judged against the reference, userset/wildcard subjects against the rule 'a v2/v1 difference must be reported by the breaking-change detector', errors against 'documented request-shape error or non-terminal (fallback)'.",
-    "Bound: every 8th r0-signature class in quick (all in thorough), <=2 tuples, C01 universe. Raw v2 runs use one Go-scheduler interleaving each (the engine's first-arrival rule makes error-vs-false timing dependent; such answers are classified, not compared for equality). Trusted: reference semantics, scripted planner.",
+    "Bound: every 8th r0-signature class in quick (all in thorough), <=2 tuples, C01 universe; flat family (<=4 tuples on one object); shadow worlds (contextual tuple with the key of a stored tuple; object subjects only); the bottom-up resolvers' stream algebra (resolveUnion/Intersection/Difference) over the same pattern enumeration as C02's fast paths. Raw v2 runs use one Go-scheduler interleaving each (the engine's first-arrival rule makes error-vs-false timing dependent; such answers are classified, not compared for equality). Trusted: reference semantics, scripted planner.",
     "bounded exhaustive enumeration of inputs x planner strategy assignments on the implementation against a reference model and the v2breaking detector")
 add("C04", "E2-worlds", "exploration",
     "Every split of every world's tuple set into stored and contextual tuples is executed through Check, BatchCheck, ListObjects, ListUsers and Expand on the default and the weighted-graph/pipeline configuration and compared with the all-stored answers; leak histories <req(C1),req(0)>, <req(C1),req(C2)>, <req(0),req(C1),req(0)> with all caches on are compared with a cache-less server and Read shows no contextual tuple.",
-    "Bound: 4 models x 2 engine configurations in quick (96 in thorough), <=2 tuples, all 2^|T| splits. Free Go scheduling; a deviation is a verdict only when it reproduces (>=4 of 6 on one side, never on the other). Trusted: e2 sweep, reference only for non-triviality.",
+    "Bound: 4 models x 2 engine configurations in quick (96 in thorough), <=2 tuples, all 2^|T| splits. Part 3 decides the equivalence at the seam that implements it: the filter shapes of every read that reaches the datastore through CombinedTupleReader are recorded during parts 1-2, and for every tuple subset (|T|<=3, 4 in thorough) of a 10-tuple universe, every stored/contextual split and every battery call of a recorded shape, CombinedTupleReader(memory(S), C) must return the rows of memory(S u C) (sorted order where requested); the run fails if a recorded shape is not covered by the battery. The weighted-graph Check merges contextual tuples itself (second seam, covered end to end and by C03's shadow worlds only). Free Go scheduling in parts 1-2; a deviation is a verdict only when it reproduces (>=4 of 6 on one side, never on the other). Trusted: e2 sweep, reference only for non-triviality, c13's call executor.",
     "bounded exhaustive enumeration of inputs and short request histories on the implementation; differential oracle (all-stored vs split)")
 add("C05", "E2-worlds", "exploration",
     "ListObjects and StreamedListObjects on the classic, weighted and pipeline engines for every world, relation, subject and context; returned objects must hold (strong reference), no duplicates, completeness when nothing is unevaluable, exactly m objects under a result limit, and soundness under a context cancelled at the k-th datastore read for every k; which engine ran is asserted from the call stacks of the datastore reads.",
@@ -73,8 +73,8 @@ add("C13", "E3-history-bfs", "model_checking",
     "explicit-state search over operation histories on the real datastores, deduplicated by observable state, differential + reference-model oracle")
 add("C14", "E5-finite", "exploration",
     "For n in 0..12 items (up to 120 in thorough) and EVERY page size 1..n+2 on both backends, continuation tokens are followed through Read, ReadChanges, ListStores and ReadAuthorizationModels via the Server API; the concatenation must be the full result exactly once in documented order; ReadChanges tokens replayed with another type, crafted offsets and every single-character mutation/truncation of issued tokens must be rejected or land on a consistent position; panics are caught and reported.",
-    "Bound: n<=12 (quick), 29 queries, both backends; token mutations at edit distance 1. Data creation is serialised (ULIDs are only monotonic within a millisecond for one caller). Trusted: the harness' own item lists.",
-    "exhaustive enumeration of (data size, page size, query, token mutation) on the implementation against list-based reference")
+    "Bound: n<=12 (quick), 29 queries, both backends; token mutations at edit distance 1. Data creation is serialised (ULIDs are only monotonic within a millisecond for one caller). Trusted: the harness' own item lists. Concurrent writers are decided by the sub-harness `memw` (E1 scheduler; pkg/storage/memory and timestamppb instrumented, harness clock +1 ms per read): 2-3 writer threads x 1-2 Write calls (mixed deletes/writes, same-tuple conflicts, two stores) and 1-2 concurrent page-size-1 readers, every interleaving up to preemption bound 2 (3 in thorough), then best effort; oracle: a full walk (page sizes 1, 2, 50) and a resume from every token seen return every committed entry exactly once, in an order consistent with the real-time order of the Write calls.",
+    "exhaustive enumeration of (data size, page size, query, token mutation) on the implementation against list-based reference; stateless model checking (controlled cooperative scheduler, iterative preemption bounding) of a sub-harness on the instrumented implementation")
 add("C18", "E2-worlds", "exploration",
     "For every model of the family (plus hand-written models mixing conditioned and unconditioned restrictions) every tuple over an extended vocabulary (unknown types/relations, wildcards and usersets in every position, self-referencing usersets, every condition x context shape incl. oversized) is submitted to Server.Write on an empty store and as a contextual tuple of a Check; accepted <=> an independent transcription of the property's rule; a rejected write leaves Read/ReadChanges empty.",
     "Bound: 738+4 models in quick, 12 objects x 8 relations x 41 users x condition/context variants (full block only for new restriction profiles in quick). Trusted: h/c18/oracle.go.",
@@ -101,7 +101,7 @@ add("C30", "E2-worlds", "exploration",
     "bounded exhaustive enumeration of inputs on the implementation against an independently constructed expected tree")
 add("C32", "E2-worlds", "exploration",
     "Every world and request is mapped to AuthZEN: Evaluation vs native Check, Evaluations (nine batch variants x four semantics, item vs top-level defaults) vs the individual Checks, SubjectSearch vs ListUsers, ResourceSearch vs ListObjects on the same server.",
-    "Bound: 10 models in quick (120 in thorough), <=2 tuples; userset subjects are not expressible in AuthZEN and excluded. Trusted: the harness' own request mapping.",
+    "Bound: 10 models in quick (120 in thorough), <=2 tuples; userset subjects are not expressible in AuthZEN and excluded. Trusted: the harness' own request mapping. Second pass (3 models in quick, 30 in thorough): a permissive model is written AFTER the model under test, every AuthZEN request pins the model under test with the Openfga-Authorization-Model-Id header and must agree with the native request naming that model.",
     "bounded exhaustive enumeration of inputs on the implementation; differential oracle (AuthZEN endpoint vs native API)")
 
 add("C08", "E3-history-bfs", "model_checking",
@@ -110,12 +110,12 @@ add("C08", "E3-history-bfs", "model_checking",
     "explicit-state model checking of the cache: BFS over real cache states with restore, invariant checked on every transition executed on the implementation")
 add("C16", "E3-history-bfs", "model_checking",
     "BFS over interleaved histories of two stores that share names, model text, object and user ids on one server with all caches on; differential oracle: each store's observations in H equal those of H restricted to that store run alone; a wrapping datastore asserts every storage call made for store A names store A; DeleteStore => GetStore not found and ListStores omits it (both backends).",
-    "Bound: 11 event kinds per store, <=3 events per store and <=4 in total (memory) / <=3 (SQLite) in quick; mutators ordered before observers per store (own-cache staleness is allowed behaviour). A deviation is a verdict only if it reproduces 6/6, else an anomaly.",
-    "explicit-state search over operation histories on the real server, differential oracle (interleaved vs isolated run)")
+    "Bound: 11 event kinds per store, <=3 events per store and <=4 in total (memory) / <=3 (SQLite) in quick; mutators ordered before observers per store (own-cache staleness is allowed behaviour). A deviation is a verdict only if it reproduces 6/6, else an anomaly. Concurrent requests on two stores are decided for the model-resolution chain by the sub-harness `tsres` (E1 scheduler; x/sync/singleflight instrumented; typesystem.MemoizedTypesystemResolverFunc over NewCachedOpenFGADatastore over a memory datastore with scheduling points around its model operations): 2-4 threads of resolve(store, latest | explicit id), every interleaving up to preemption bound 1 required (2-3 best effort; 2 required in thorough); a store must never be answered with another store's model, also in sequential resolves afterwards.",
+    "explicit-state search over operation histories on the real server, differential oracle (interleaved vs isolated run); stateless model checking (controlled cooperative scheduler, iterative preemption bounding) of a sub-harness on the instrumented implementation")
 add("C17", "E3-history-bfs", "model_checking",
     "BFS over sequences of WriteAuthorizationModel (4 valid models with pairwise different answers, 10 invalid mutants), model-less Check, Check with explicit ids and model reads, on memory (default and all caches) and SQLite: accept <=> typesystem.NewAndValidate accepts and every mutant is rejected; rejected writes change nothing; ids increase; reads are proto.Equal to what was written; a model-less Check answers like the latest model, including right after a newer model is written (cache-warm states are kept distinct).",
-    "Bound: sequences <=4 (5 in thorough). Id monotonicity under concurrent writers in the same millisecond is schedule dependent (ulid.Make): observed deviations are recorded as anomalies, not verdicts.",
-    "explicit-state search over operation histories on the real server against a reference model")
+    "Bound: sequences <=4 (5 in thorough). Id monotonicity under concurrent writers in the same millisecond is schedule dependent (ulid.Make): observed deviations are recorded as anomalies, not verdicts. Concurrent requests: sub-harness `tsres` as for C16 with model writes: every resolve must return a model a linearizable model store could return (interval reasoning on call/return stamps), i.e. the latest model right after a write returned.",
+    "explicit-state search over operation histories on the real server against a reference model; stateless model checking (controlled cooperative scheduler, iterative preemption bounding) of a sub-harness on the instrumented implementation")
 add("C31", "E3-history-bfs", "model_checking",
     "BFS over WriteAssertions/ReadAssertions histories on two stores sharing two model ids, both backends; reference: map[(store,model)] -> last accepted list; all four pairs are read after every transition and compared element-wise with proto.Equal.",
     "Bound: 6 assertion lists (empty, one, two, contextual tuples incl. conditioned, context structs, one invalid), depth 3 (5 in thorough: all 6^4 abstract states).",
@@ -135,17 +135,17 @@ add("C12", "E4-sqlfault", "fault_enumeration",
     "explicit-state search over write histories plus exhaustive fault and crash-point enumeration at every SQL statement boundary through a wrapping database/sql driver")
 add("C15", "E3-history-bfs", "model_checking",
     "BFS over write/delete/mixed-batch histories on both backends, deduplicated by (tuple set, changelog): in every state replaying ReadChanges (page sizes 1 and 50) onto an empty map reproduces Read, the number of changes equals the number of applied items, descending order is the exact reverse, the type filter selects by object type, and horizon offsets 0 / far-future withhold nothing / everything.",
-    "Bound: 3 tuple keys (one conditioned), depth 4 (6 in thorough). Memory horizon straddling is decided only when the read demonstrably fell inside the bracket (wall clock); SQLite's clock cannot be bracketed. Single-writer processes (ULID order under concurrent writers is a known finding).",
-    "explicit-state search over operation histories on the real datastores, replay-equals-state oracle")
+    "Bound: 3 tuple keys (one conditioned), depth 4 (6 in thorough). Memory horizon straddling is decided only when the read demonstrably fell inside the bracket (wall clock); SQLite's clock cannot be bracketed. Single-writer processes (ULID order under concurrent writers is a known finding). Concurrent writers: sub-harness `memw` as for C14, here with the history oracles (one entry per successful item, deletes before writes inside one call, entries attributed to their call, replay equals Read).",
+    "explicit-state search over operation histories on the real datastores, replay-equals-state oracle; stateless model checking (controlled cooperative scheduler, iterative preemption bounding) of a sub-harness on the instrumented implementation")
 
 add("C09", "E3-history-bfs", "fault_enumeration",
     "For every world and request pair <q1,q2>: q1 runs with the iterator caches and shared iterators on while the request context is cancelled at the k-th datastore operation (read call or iterator Next/Head) for EVERY k, and again with a non-cancellation error injected at every k; background drains are awaited; then every q2 runs undisturbed and must answer like the reference or the cache-less server: a partially read result is never served as complete.",
-    "Bound: every 30th r0-signature class without conditions in quick (every 3rd in thorough), <=2 tuples, Check on every node + two ListObjects as q1 and q2, default and weighted-graph/pipeline engines, fresh server per world. Trusted: fault-injecting datastore wrapper (h/dsx), map-backed cache (h/cachex). Interleavings of concurrent readers of one CachedDatastore (cachedIterator Next/Stop/flush, background drain, singleflight, findInCache/isInvalidAt) are explored by the E1 sub-harness citer (h/citer, instrumented pkg/storage/storagewrappers + x/sync/singleflight): 2-3 readers x k of n<=3 tuples consumed, with inner-iterator failure, cancellation and invalidation threads; preemption bounds 0-2 complete, unbounded where the budget allows (evidence: coverage.cached_iterator_interleavings). Shared iterators under the scheduler: C23.",
-    "exhaustive fault-point enumeration (cancel / error at every datastore operation of the first request) on the real server, differential + reference oracle on the following requests")
+    "Bound: every 30th r0-signature class without conditions in quick (every 3rd in thorough), <=2 tuples, Check on every node + two ListObjects as q1 and q2, default and weighted-graph/pipeline engines, fresh server per world. Trusted: fault-injecting datastore wrapper (h/dsx), map-backed cache (h/cachex). Interleavings of concurrent readers of one CachedDatastore (cachedIterator Next/Stop/flush, background drain, singleflight, findInCache/isInvalidAt) are explored by the E1 sub-harness citer (h/citer, instrumented pkg/storage/storagewrappers + x/sync/singleflight): 2-3 readers x k of n<=3 tuples consumed, with inner-iterator failure, cancellation and invalidation threads; preemption bounds 0-2 complete, unbounded where the budget allows (evidence: coverage.cached_iterator_interleavings). Shared iterators under the scheduler: C23. (That part is now decided: sub-harness `citer`, E1 scheduler on the instrumented pkg/storage/storagewrappers + x/sync/singleflight with a harness clock: 2-3 readers of one CachedDatastore x every k of n<=3 tuples consumed, inner failure at every position, cancellation / invalidation written by another thread, result at maxResultSize; every interleaving up to preemption bound 2, unbounded where it finishes; a cache entry is never a prefix, never stored after failure/cancel/newer invalidation, a later hit reads the complete list.)",
+    "exhaustive fault-point enumeration (cancel / error at every datastore operation of the first request) on the real server, differential + reference oracle on the following requests; stateless model checking (controlled cooperative scheduler, iterative preemption bounding) of a sub-harness on the instrumented implementation")
 
 add("C20", "E2-worlds", "exploration",
     "In single-threaded worker processes every request of {Check, BatchCheck, ListObjects, StreamedListObjects, ListUsers, Expand} runs on three engine configurations over every world (family representatives, hand-made 12-cycles of usersets, an 8-cycle of TTU parents, a 150-way fan-out), undisturbed and with its context cancelled at the k-th datastore operation for EVERY k: the call must return (20 s watchdog) and the process's goroutine count must be back at its pre-request value within 3 s (nothing started for the request keeps running; caches off, so no background fill is excepted).",
-    "Bound: every 16th r0-signature class without conditions in quick (every 2nd in thorough), single-tuple sets and every 7th two-tuple set, cancellation points capped at 40 per request. Wall-clock 'deadline plus slack' is NOT decided. One Go-scheduler interleaving per run; schedule-quantified termination is covered by the cancel-thread scenarios of the C21/C22 scheduler harnesses.",
+    "Bound: every 16th r0-signature class without conditions in quick (every 2nd in thorough), single-tuple sets and every 7th two-tuple set, cancellation points capped at 40 per request. Wall-clock 'deadline plus slack' is NOT decided. One Go-scheduler interleaving per run; schedule-quantified termination is covered by the cancel-thread scenarios of the C21/C22 scheduler harnesses. The hand-made worlds now include 60-way userset and tuple-to-userset fan-outs with the granting branch first / last / absent, and a forced-strategy pass runs Check on every hand-made world under EVERY planner strategy assignment (scripted planner, three tunings) with a 20 s return watchdog. A goroutine-count excess is a verdict only if three more executions of the same (request, cancellation point) each leave the count higher.",
     "bounded exhaustive enumeration of inputs x cancellation points on the implementation with a goroutine-census oracle")
 
 add("C26", "E2-worlds", "exploration",
@@ -155,7 +155,7 @@ add("C26", "E2-worlds", "exploration",
 
 add("C23", "E1-scheduler", "exploration",
     "(a) 30 tuple-iterator adapter variants x all input sequences of length <=3 over an ordered 3-symbol alphabet, each ending in Done, a sticky injected error or a context cancel, x all call scripts over {Next, Head, Stop} of length <=4, against list-based specifications; (b) all interleavings within the preemption bound of 2-3 consumers of one real shared iterator (sharediterator instrumented at build time, its admission/idle timers modelled as threads that may fire at any point): every consumer sees a prefix-closed view of the complete sequence, no deadlock/livelock/panic, every opened underlying iterator is stopped.",
-    "Bound: (a) lengths <=3, scripts <=4 (5 in thorough), aspects the doc comments leave open are listed in evidence and not compared; (b) 11 scenarios, 0-18 items, preemption bounds 0-1 required in quick (0-2 in thorough), then <=2 and unbounded best effort. Trusted: vrt/vsync/vatomic/vtime models, vgen rewrite, fair-scheduling rule for await.Do's hand-off spin.",
+    "Bound: (a) lengths <=3, scripts <=4 (5 in thorough), aspects the doc comments leave open are listed in evidence and not compared; (b) 11 scenarios, 0-18 items, preemption bounds 0-1 required in quick (0-2 in thorough), then <=2 and unbounded best effort. Trusted: vrt/vsync/vatomic/vtime models, vgen rewrite, fair-scheduling rule for await.Do's hand-off spin. (b) also: one consumer's request context cancelled by another thread at an arbitrary point with an inner iterator that honours the context it is called with: the other consumers must still see the complete sequence.",
     "exhaustive enumeration of inputs x call scripts against list specifications, plus stateless model checking of the shared iterator under a controlled scheduler")
 
 NOT_BUILT ="check not built yet in this session; see DESIGN.md §5 for the planned decision procedure"
